@@ -180,7 +180,10 @@ class Analyzer:
             and all((ast.unparse(a.annotation) if a.annotation is not None else "") in ("float", "int", "bool", "dict") for a in _all)
             and "skip_vectorization" not in "".join(ast.unparse(d) for d in fn.decorator_list)
         )
-        env = {p: (({f"param:{p}"}, set(), set()) if p in imm else ({f"param:{p}"}, {f"param:{p}"}, {f"param:{p}"})) for p in params}
+        # `param:p` is the object passed, `param:p.*` stands for everything reachable from it: a callee that
+        # writes into an ELEMENT of its argument changes the caller's objects even when the caller passed a
+        # fresh container holding them
+        env = {p: (({f"param:{p}"}, set(), set()) if p in imm else ({f"param:{p}"}, {f"param:{p}.*"}, {f"param:{p}.*"})) for p in params}
         outer_locals = set()
         if ".<locals>." in q:
             oq2 = q.rsplit(".<locals>.", 1)[0]
@@ -274,9 +277,14 @@ class Analyzer:
                 s0, r1, rn = set(), set(), set()
                 for r in ce.ret:
                     if r.startswith("param:"):
-                        ap = amap.get(r[6:])
+                        deep_ = r.endswith(".*")
+                        ap = amap.get(r[6:-2] if deep_ else r[6:])
                         if ap is None:
                             s0.add("fresh")
+                        elif deep_:
+                            s0 |= (ap[1] | ap[2]) or {"fresh"}
+                            r1 |= ap[2]
+                            rn |= ap[2]
                         else:
                             s0 |= ap[0]
                             r1 |= ap[1]
@@ -287,10 +295,11 @@ class Analyzer:
                         s0.add(r)
                 for r in ce.ret_reach:
                     if r.startswith("param:"):
-                        ap = amap.get(r[6:])
+                        deep_ = r.endswith(".*")
+                        ap = amap.get(r[6:-2] if deep_ else r[6:])
                         if ap is not None:
-                            r1 |= allr(ap)
-                            rn |= allr(ap)
+                            r1 |= ({x for x in (ap[1] | ap[2]) if x != "fresh"} if deep_ else allr(ap))
+                            rn |= ({x for x in (ap[1] | ap[2]) if x != "fresh"} if deep_ else allr(ap))
                     elif not r.startswith("outer:"):
                         r1.add(r)
                         rn.add(r)
@@ -415,9 +424,10 @@ class Analyzer:
                 amap = self._argmap(ce.params, n, roots)
                 for w in ce.writes:
                     if w.startswith("param:"):
-                        ap = amap.get(w[6:])
+                        deep_ = w.endswith(".*")
+                        ap = amap.get(w[6:-2] if deep_ else w[6:])
                         if ap is not None:
-                            write(ap, n, f"via {tgt[1]}({w[6:]})")
+                            write((ap[1] | ap[2]) if deep_ else ap, n, f"via {tgt[1]}({w[6:]})")
                     elif w.startswith("outer:"):
                         pass
                     else:
